@@ -11,7 +11,7 @@ package shrinker
 // quiescent: this goroutine holds no inode lock and has no open transaction
 //@ specfunc quiet() = noLocks() && lastst != 0 && dirtyInv() && allocInv()
 
-//@ spec (*ShrinkerSt).crashed
+//@ spec (*ShrinkerSt).crashed(shrinkst)
 //@   props C14 C06
 //@   requires shrinkInv(shrinkst) && !muheld[base(shrinkst.mu)]
 //@   modifies muheld
@@ -19,7 +19,7 @@ package shrinker
 
 // F4 (C05), R7 (C01): every iteration is one self-contained transaction that
 // ends committed (or the loop stops); no lock survives an iteration (D4, C06).
-//@ spec (*ShrinkerSt).DoShrink
+//@ spec (*ShrinkerSt).DoShrink(shrinkst, inum)
 //@   props C05 C01 C03 C06 C09 C10 C11
 //@   requires shrinkInv(shrinkst) && !muheld[base(shrinkst.mu)] && inum < 32768
 //@   requires [D4-quiet] quiet() @C06 @C03
@@ -29,7 +29,7 @@ package shrinker
 //@   ensures [D4-quiet] quiet() && muheld == old(muheld) @C06 @C03
 //@   loop 0 invariant shrinkInv(shrinkst) && quiet() && muheld == old(muheld)
 
-//@ spec (*ShrinkerSt).StartShrinker
+//@ spec (*ShrinkerSt).StartShrinker(shrinkst, inum)
 //@   props C14 C06 C05
 //@   requires shrinkInv(shrinkst) && !muheld[base(shrinkst.mu)] && inum < 32768
 //@   allocates struct:struct{}
@@ -37,7 +37,7 @@ package shrinker
 //@   ensures muheld == old(muheld)
 //@   ensures [F2-started] shrinkst.nthread == old(shrinkst.nthread) + 1 @C05
 
-//@ spec (*ShrinkerSt).shrinker
+//@ spec (*ShrinkerSt).shrinker(shrinkst, inum)
 //@   props C14 C06 C05 C11
 //@   requires shrinkInv(shrinkst) && !muheld[base(shrinkst.mu)] && inum < 32768 && quiet()
 //@   panic_assumed "shrink"
